@@ -163,6 +163,20 @@ Definition odir_eqb (a b : option str) : bool :=
 
 Definition mem_odir (d : option str) (l : list (option str)) : bool := existsb (odir_eqb d) l.
 
+(* what remove() does about the directory of one product: nothing when that directory has
+   already gone (removedDirs), rmtree when it is a real file name, and it is remembered *)
+Definition dir_step (c : rconf) (a0 : adb) (p : node) (removed : list (option str)) (fs : list str)
+  : res (list (option str) * list str) :=
+  let d := product_dir c a0 p in
+  if mem_odir d removed then Ok (removed, fs)
+  else match d with
+       | None => Ok (d :: removed, fs)
+       | Some dir =>
+           if placeholder dir then Ok (d :: removed, fs)
+           else if mem_str dir fs then Ok (d :: removed, rmtree dir fs)
+           else Err Crash                               (* rmtree: OSError -> RuntimeError *)
+       end.
+
 (* the loop of Eups.remove; the state travels with the outcome because an exception leaves
    behind whatever was done before it *)
 Fixpoint destroy (c : rconf) (a0 : adb) (ps : list node) (removed : list (option str)) (st : rstate)
@@ -173,17 +187,10 @@ Fixpoint destroy (c : rconf) (a0 : adb) (ps : list node) (removed : list (option
       match undeclare c (rdb st) (nname p) (nver p) with
       | Err e => (Err e, st)
       | Ok a' =>
-          let st1 := mkR a' (rfs st) in
-          let d := product_dir c a0 p in
-          if mem_odir d removed then destroy c a0 r removed st1
-          else match d with
-               | None => destroy c a0 r (d :: removed) st1
-               | Some dir =>
-                   if placeholder dir then destroy c a0 r (d :: removed) st1
-                   else if mem_str dir (rfs st)
-                        then destroy c a0 r (d :: removed) (mkR a' (rmtree dir (rfs st)))
-                        else (Err Crash, st1)           (* rmtree: OSError -> RuntimeError *)
-               end
+          match dir_step c a0 p removed (rfs st) with
+          | Err e => (Err e, mkR a' (rfs st))
+          | Ok (removed', fs') => destroy c a0 r removed' (mkR a' fs')
+          end
       end
   end.
 
